@@ -127,8 +127,15 @@ def check_ts_machinery(P, R, rid, per_instance=True):
         outer = [c for c in ast.walk(a.node) if isinstance(c, ast.Call) and dotted(c.func) in ('getattr', 'setattr', 'delattr')
                  and c.args and any(c.args[0] is i for i in inner)]
         ok = bool(inner) and bool(outer)
-        free = {n.id for n in ast.walk(a.node) if isinstance(n, ast.Name) and isinstance(n.ctx, ast.Load)} - set(a.params) \
-            - {'getattr', 'setattr', 'delattr', key_param, store_param}
+        # closure variables = names bound in an enclosing function (module globals and builtins are not per-class state)
+        enclosing_locals = set()
+        pf_ = a.parent
+        while pf_ is not None:
+            enclosing_locals |= set(pf_.params) | (set(pf_.rd.locals) if not isinstance(pf_.node, ast.Lambda) else set())
+            enclosing_locals |= {x.name for x in ast.walk(pf_.node) if isinstance(x, (ast.FunctionDef, ast.ClassDef)) and x is not pf_.node}
+            pf_ = pf_.parent
+        free = ({n.id for n in ast.walk(a.node) if isinstance(n, ast.Name) and isinstance(n.ctx, ast.Load)} & enclosing_locals) - set(a.params) \
+            - {key_param, store_param}
         R.ob(rid, a, a.node, ok and not free, text=f'{name}: getattr(getattr({sp}, store_name), k)', detail='' if ok and not free else
              (f'the accessor reads the closure variable(s) {sorted(free)} instead of the store of the instance it is called on'
               if free else 'the accessor does not go through the instance\'s own store'),
